@@ -12,6 +12,10 @@ Oracles (``vlib/oracle/c07.py``, mpmath at 50 digits, written from the property 
 * Coherent artifact: unit-height Gaussian at that position and its first / second derivative (``mpmath.diff``).
 * Spectral shapes: documented Gaussian / skewed-Gaussian formulae, evaluated on the *interval* of arguments that
   floating point rounding of the axis admits (so decisions at theta = 0 are left open).
+* Whole dataset ("the same effective IRF position per index as the decay model of the dataset"): several IRF-using
+  megacomplexes in one dataset, every list order, evaluated repeatedly on one filled dataset model through
+  ``MatrixProvider.calculate_dataset_matrix``; each column must be the column of its megacomplex evaluated alone on a
+  freshly built model (state kept on the filled IRF / dataset model between megacomplexes or calls must not leak).
 
 A failing case is bucketed under the clause of its root cause: the verdict always comes from "code != oracle";
 alternative hypotheses (constant offset, opposite shift sign) are only used to choose the clause id.
@@ -736,6 +740,226 @@ def prop_artifact(case):
 
 
 # ------------------------------------------------------------------------------------------
+# a whole dataset: several IRF-using megacomplexes, every list order, repeated evaluation
+
+
+DATASET_KINDS = ["doas", "doas", "pfid", "artifact", "decay"]
+
+
+@st.composite
+def dataset_cases(draw):
+    """2-4 megacomplexes (any kinds, kinds may repeat) sharing one IRF, evaluated as one dataset in several list orders."""
+    ng = draw(st.integers(1, 3))
+    g0 = draw(st.floats(1000, 3000))
+    gaxis = sorted({float(g0 + draw(st.floats(0, 60))) for _ in range(ng)})
+    # 2/3 of the cases with a per-index position (shift and / or dispersion)
+    irf = draw(irf_cases(gaxis, allow_plain=draw(st.integers(0, 2)) == 0))
+    lo, hi, smin, smax = _irf_extent(irf, gaxis)
+    kinds = draw(st.lists(st.sampled_from(DATASET_KINDS), min_size=2, max_size=4))
+    mcs = []
+    om, gam, wmin, wmax = 0.0, [1.0], smin, smax
+    for j, kind in enumerate(kinds):
+        name = f"m{j}"
+        if kind in ("doas", "pfid"):
+            osc = draw(osc_list(smax, "well", pfid=kind == "pfid", gaxis=gaxis))
+            for o in osc:
+                o["label"] = f"{name}{o['label']}"
+            if kind == "doas":
+                om = max([om] + [o["nu"] * W2A for o in osc])
+            gam += [abs(o["gamma"]) for o in osc]
+            mcs.append({"name": name, "kind": kind, "osc": osc})
+        elif kind == "artifact":
+            own = draw(st.one_of(st.none(), _log_uniform(1e-3, 5.0)))
+            if own is not None:
+                wmin, wmax = min(wmin, own), max(wmax, own)
+            mcs.append({"name": name, "kind": kind, "order": draw(st.integers(1, 3)), "own_width": own})
+        else:
+            mcs.append({"name": name, "kind": kind, "rate": float(min(1e3, max(1e-3, draw(st.floats(0.1, 2.0)) / smax)))})
+    times = draw(time_axis(lo, hi, wmin, wmax, om, min(gam), anticausal=draw(st.booleans()) and "pfid" in kinds))
+    n = len(mcs)
+    perms = _permutations(n)
+    if len(perms) > 6:
+        picks = draw(st.lists(st.integers(0, len(perms) - 1), min_size=6, max_size=6, unique=True))
+        perms = [perms[p] for p in sorted(picks)]
+    return {"gaxis": gaxis, "irf": irf, "mcs": mcs, "orders": perms, "times": times, "repeat": 2}
+
+
+def _permutations(n):
+    import itertools
+
+    return [list(p) for p in itertools.permutations(range(n))]
+
+
+def build_dataset_model(case, names, irf=None):
+    """one dataset with the megacomplexes ``names`` (in that order) of the case and the IRF; freshly built and filled."""
+    from glotaran.model import fill_item
+
+    cls = _model_class()
+    P = _Params()
+    by_name = {m["name"]: m for m in case["mcs"]}
+    mcs = {}
+    for name in names:
+        m = by_name[name]
+        if m["kind"] in ("doas", "pfid"):
+            mcs[name] = {
+                "type": "damped-oscillation" if m["kind"] == "doas" else "pfid",
+                "labels": [o["label"] for o in m["osc"]],
+                "frequencies": [P.add(o["nu"]) for o in m["osc"]],
+                "rates": [P.add(o["gamma"]) for o in m["osc"]],
+            }
+        elif m["kind"] == "artifact":
+            mcs[name] = {"type": "coherent-artifact", "order": int(m["order"])}
+            if m.get("own_width") is not None:
+                mcs[name]["width"] = P.add(m["own_width"])
+        elif m["kind"] == "decay":
+            mcs[name] = {"type": "decay-parallel", "compartments": [f"s_{name}"], "rates": [P.add(m["rate"])]}
+        else:
+            raise ValueError(m["kind"])
+    spec = {
+        "megacomplex": mcs,
+        "irf": {"i": _irf_spec(irf if irf is not None else case["irf"], P)},
+        "dataset": {"d": {"megacomplex": list(names), "irf": "i"}},
+    }
+    model = cls(**spec)
+    return fill_item(model.dataset["d"], model, P.build())
+
+
+def _alone(case, name, times, irf=None):
+    """labels and (I or 1, T, n) matrix of one megacomplex evaluated as the only one of a freshly built dataset."""
+    dm = build_dataset_model(case, [name], irf=irf)
+    with np.errstate(all="ignore"):
+        labels, mat = dm.megacomplex[0].calculate_matrix(dm, np.array(case["gaxis"], dtype=float), times)
+    mat = np.array(mat, dtype=float)
+    return list(labels), (mat[None] if mat.ndim == 2 else mat)
+
+
+def prop_dataset(case):
+    """Every column of a dataset with several IRF-using megacomplexes is the column the megacomplex has on its own.
+
+    The statement defines each column by the parameters of its megacomplex and the effective IRF position of the
+    dataset alone - so neither the other megacomplexes of the dataset, nor their order in the list, nor an earlier
+    evaluation of the same dataset model can change it.  Reference: the same megacomplex evaluated alone on a freshly
+    built model (which the other sub-checks tie to the closed forms); compared at TOL_REL of the column scale.
+    """
+    from glotaran.optimization.matrix_provider import MatrixProvider
+
+    times = np.array(case["times"], dtype=float)
+    gaxis = np.array(case["gaxis"], dtype=float)
+    oscs = [o for m in case["mcs"] if m["kind"] == "doas" for o in m["osc"]]
+    if oscs:
+        _no_fold({"osc": oscs}, times)
+    elif times.size < 2 or float(np.min(np.diff(times))) <= 0:
+        raise Discard("time axis not strictly increasing")
+    for m in case["mcs"]:
+        if m["kind"] == "doas" and any(o["gamma"] < 0 for o in m["osc"]):
+            raise Discard("negative DOAS rate with IRF is outside the statement")
+        if m["kind"] == "pfid" and any(o["gamma"] >= 0 for o in m["osc"]):
+            raise Discard("PFID rates are negative")
+    labels_all = [o["label"] for m in case["mcs"] if m["kind"] in ("doas", "pfid") for o in m["osc"]]
+    if len(set(labels_all)) != len(labels_all) or len({m["name"] for m in case["mcs"]}) != len(case["mcs"]):
+        raise Discard("labels shared between megacomplexes (columns would be summed)")
+    names = [m["name"] for m in case["mcs"]]
+    kind_of = {m["name"]: m["kind"] for m in case["mcs"]}
+    shifted = case["irf"].get("shift") is not None and any(s != 0 for s in case["irf"]["shift"])
+
+    alone = {}
+    for name in names:
+        with expect_ok("dataset.alone_call"):
+            alone[name] = _alone(case, name, times)
+    owner = {}
+    for name in names:
+        for lbl in alone[name][0]:
+            owner[lbl] = name
+
+    def compare(order, labels, mat):
+        """None, or (label, megacomplex name, message) of the worst column that differs from the megacomplex alone."""
+        worst = None
+        for name in order:
+            a_labels, a_mat = alone[name]
+            for k, lbl in enumerate(a_labels):
+                got = mat[..., labels.index(lbl)]
+                got = got[None] if got.ndim == 1 else got
+                ref = a_mat[..., k]
+                check(got.shape[0] in (1, ref.shape[0]) or ref.shape[0] == 1, "dataset.shape", lambda: f"{mat.shape} vs alone {a_mat.shape}")
+                ref_b, got_b = np.broadcast_arrays(ref, got)
+                open_ = ~np.isfinite(ref_b)  # outcomes the megacomplex alone leaves non-finite are not decided here
+                finite_ref = np.where(open_, 0.0, ref_b)
+                scale = float(np.max(np.abs(finite_ref))) if finite_ref.size else 0.0
+                err = np.where(open_, 0.0, np.abs(got_b - finite_ref))
+                err = np.where(np.isnan(err), np.inf, err)
+                e = float(np.max(err)) if err.size else 0.0
+                if e > TOL_REL * scale + 1e-300:
+                    rel = e / (scale + 1e-300)
+                    if worst is None or rel > worst[0]:
+                        p = np.unravel_index(int(np.argmax(err)), err.shape)
+                        worst = (rel, lbl, name,
+                                 f"column {lbl!r} of {name} ({kind_of[name]}) at index {p[0]} t={times[p[1]]!r}: in the dataset {got_b[p]!r}, "
+                                 f"alone {ref_b[p]!r} (max deviation {rel:.3e} of the column scale)")
+        return worst
+
+    def position_hypothesis(name, lbl, labels, mat):
+        """clause selection only: does the column equal the megacomplex alone at centre - m * shift_i for another m?"""
+        if not shifted:
+            return None
+        for mult in (2.0, 3.0, 0.0, -1.0, 4.0):
+            irf2 = dict(case["irf"], shift=[mult * s for s in case["irf"]["shift"]])
+            try:
+                l2, m2 = _alone(case, name, times, irf=irf2)
+            except Exception:  # noqa: BLE001 - hypothesis only
+                continue
+            got = mat[..., labels.index(lbl)]
+            got = got[None] if got.ndim == 1 else got
+            ref = m2[..., l2.index(lbl)]
+            ref_b, got_b = np.broadcast_arrays(ref, got)
+            ok = np.isfinite(ref_b) & np.isfinite(got_b)
+            sc = float(np.max(np.abs(ref_b[ok]))) if ok.any() else 0.0
+            if ok.any() and float(np.max(np.abs(ref_b[ok] - got_b[ok]))) <= 1e-7 * sc + 1e-300:
+                return mult
+        return None
+
+    tags = set()
+    for order_idx in case["orders"]:
+        order = [names[j] for j in order_idx]
+        dm = build_dataset_model(case, order)
+        first_ok = True
+        for rep in range(int(case.get("repeat", 1))):
+            with np.errstate(all="ignore"):
+                with expect_ok("dataset.call"):
+                    res = MatrixProvider.calculate_dataset_matrix(dm, gaxis, times)
+            labels, mat = list(res.clp_labels), np.asarray(res.matrix, dtype=float)
+            want_labels = [lbl for name in order for lbl in alone[name][0]]
+            check(sorted(labels) == sorted(want_labels), "dataset.labels", lambda: f"order {order}: {labels} != {want_labels}")
+            check(mat.shape[-1] == len(labels) and mat.shape[-2] == times.size and mat.ndim in (2, 3), "dataset.shape", lambda: f"{mat.shape}")
+            worst = compare(order, labels, mat)
+            if worst is None:
+                continue
+            _, lbl, name, msg = worst
+            before = [f"{n_}({kind_of[n_]})" for n_ in order[: order.index(name)]]
+            ctx = f"megacomplex list {[f'{n_}({kind_of[n_]})' for n_ in order]}, evaluation #{rep + 1} of the same dataset model; "
+            mult = position_hypothesis(name, lbl, labels, mat)
+            if mult is not None:
+                where = f"sits at centre - {mult:g}*shift_i instead of the effective IRF position centre - shift_i of the dataset (shift={case['irf']['shift']}); "
+                if rep > 0 and first_ok:
+                    raise Violation("dataset.irf_position_repeated_evaluation", ctx + where + msg)
+                raise Violation("dataset.irf_position_shared", ctx + where + f"evaluated after {before}; " + msg)
+            if rep > 0 and first_ok:
+                raise Violation("dataset.repeated_evaluation", ctx + "the first evaluation agreed with the megacomplexes alone; " + msg)
+            raise Violation("dataset.column_depends_on_neighbours", ctx + f"evaluated after {before}; " + msg)
+        kinds_in_order = [kind_of[n_] for n_ in order]
+        if "doas" in kinds_in_order and kinds_in_order.index("doas") < len(kinds_in_order) - 1:
+            tags.add("doas_before_other")
+        if "pfid" in kinds_in_order and kinds_in_order.index("pfid") < len(kinds_in_order) - 1:
+            tags.add("pfid_before_other")
+    tags |= {f"n{len(names)}", case["irf"]["type"], "+".join(sorted({kind_of[n_] for n_ in names}))}
+    if shifted:
+        tags.add("shift")
+    disp = case["irf"]["type"].startswith("spectral") and bool(case["irf"].get("center_disp") or case["irf"].get("width_disp"))
+    if disp:
+        tags.add("dispersion")
+    return {"nontrivial": bool(shifted or disp), "tags": sorted(tags)}
+
+
+# ------------------------------------------------------------------------------------------
 # spectral shapes
 
 
@@ -872,7 +1096,11 @@ PROPERTY = Property(
         "artifact order 1-3 with own or IRF width on the same IRF family; gaussian / skewed-gaussian shapes (skewness 1e-9..20 of either "
         "sign, points at the location, at +-FWHM/2, and on both sides of / within rounding of theta = 0) on plain, scaled and inverted axes. "
         "Non-trivial: IRF with non-zero shift or dispersion, >= 2 oscillations, negative rate without IRF, order-3 artifact with own width, "
-        "skewed shape evaluated on both sides of theta = 0, inverted / scaled axis; distinct = distinct case digest."
+        "skewed shape evaluated on both sides of theta = 0, inverted / scaled axis; distinct = distinct case digest. "
+        "Whole datasets: 2-4 megacomplexes of any kinds (damped oscillation, PFID, coherent artifact, decay; kinds may repeat) sharing one "
+        "IRF (2/3 with per-index shift / dispersion), evaluated through MatrixProvider.calculate_dataset_matrix on one filled dataset model "
+        "in every list order (6 drawn orders for 4 megacomplexes), twice per model; each column is compared with the same megacomplex "
+        "evaluated alone on a freshly built model."
     ),
     subs=[
         Sub("doas_noirf", prop=prop_doas_noirf, strategy=doas_noirf_cases, budget={"quick": 240, "thorough": 12000}),
@@ -880,6 +1108,7 @@ PROPERTY = Property(
         Sub("pfid", prop=prop_osc_irf, strategy=pfid_cases, budget={"quick": 224, "thorough": 12000}),
         Sub("artifact", prop=prop_artifact, strategy=artifact_cases, budget={"quick": 208, "thorough": 10000}),
         Sub("shape", prop=prop_shape, strategy=shape_cases, budget={"quick": 240, "thorough": 10000}),
+        Sub("dataset", prop=prop_dataset, strategy=dataset_cases, budget={"quick": 160, "thorough": 8000}),
     ],
     assumptions=[
         "mpmath (50 digits) closed forms are trusted after the start-up self-check against mpmath.quad of the defining integrals",
@@ -891,6 +1120,10 @@ PROPERTY = Property(
         "transform, x - x0 and theta, +- 1e-12 |A|; continuity |f_b - f_0| <= 1e-6 |A| for |b| <= 1e-6",
         "the frequency folding rule of the damped-oscillation megacomplex is outside the statement: time axes are generated so that no "
         "frequency is folded (cases that would fold are discarded)",
+        "dataset sub-check: a column is defined by its megacomplex and the effective IRF position of the dataset only, so it equals the "
+        "column of the megacomplex alone (tied to the closed forms by the other sub-checks) within 1e-9 of the column scale whatever the "
+        "other megacomplexes, their order, or earlier evaluations of the same dataset model; entries the megacomplex alone leaves "
+        "non-finite are left open; megacomplexes of one dataset have distinct clp labels (shared labels are summed by design)",
     ],
     selfcheck=selfcheck,
 )
